@@ -29,6 +29,8 @@ import (
 	"errors"
 	"fmt"
 	"math/rand"
+	"sort"
+	"strings"
 	"testing"
 	"testing/synctest"
 	"time"
@@ -246,12 +248,13 @@ func errKind(err error) string {
 
 // evalA is the oracle of part (a) on one execution.
 func evalA(p polA, ctx0 string, r runA) (out []finding) {
-	pc := polClass(p)
+	pcFull := polClass(p) // kind and min=zero|positive: only where a zero wait matters (attempt after a stop condition)
+	pc := pcFull[:strings.Index(pcFull, ":min=")]
 	if r.Over {
 		if r.OverAfter == "bound" {
 			out = append(out, finding{"retry:too-many-attempts:" + pc, fmt.Sprintf("invocation %d with a bound of %d", r.M, p.bound())})
 		} else {
-			out = append(out, finding{"retry:attempt-after:" + r.OverAfter + ":" + pc, fmt.Sprintf("invocation %d happened after %s", r.M, r.OverAfter)})
+			out = append(out, finding{"retry:attempt-after:" + r.OverAfter + ":" + pcFull, fmt.Sprintf("invocation %d happened after %s", r.M, r.OverAfter)})
 		}
 		return // the harness ended the run; the remaining clauses are not meaningful
 	}
@@ -352,21 +355,31 @@ func exploreA(t *testing.T, p polA, api, ctx0 string, res *partAResult) {
 		if len(prefix) > 0 && prefix[len(prefix)-1].endsContext() {
 			reps = raceReps
 		}
+		// every repetition is executed (no early stop), so that the counts do not depend on which run of a racy case
+		// happens to violate first; a case counts once per signature
 		var first runA
-		violated := false
-		for k := 0; k < reps && !violated; k++ {
+		seen := map[string]bool{}
+		outs := map[string]bool{}
+		for k := 0; k < reps; k++ {
 			r := execA(t, p, api, ctx0, prefix)
 			res.Executions++
-			if k == 0 {
-				first = r
-			} else if !r.Over && (fmt.Sprint(r.Consumed) != fmt.Sprint(first.Consumed) || r.M != first.M || errKind(r.Err) != errKind(first.Err)) {
-				res.EngineErrors = append(res.EngineErrors, fmt.Sprintf("part A: two executions of %v %s %s %v differ without a violation", p, api, ctx0, symStrings(prefix)))
+			fs := evalA(p, ctx0, r)
+			if k == 0 || (first.Over && !r.Over) {
+				first = r // prefer a run the harness did not have to stop (same consumed prefix either way)
 			}
-			for _, f := range evalA(p, ctx0, r) {
-				violated = true
+			if r.Over {
+				outs["stopped-by-harness-after-"+r.OverAfter] = true
+			} else {
+				outs[fmt.Sprintf("invocations=%d:result=%s", r.M, errKind(r.Err))] = true
+			}
+			for _, f := range fs {
+				if seen[f.Sig] {
+					continue
+				}
+				seen[f.Sig] = true
 				v := res.Viol[f.Sig]
 				if v == nil {
-					v = &violRec{Sig: f.Sig, Key: fmt.Sprintf("%02d|%d|%v", len(prefix), p.RetryMax, caseA{p, api, ctx0, symStrings(prefix)}), Replay: map[string]any{"part": "A", "case": caseA{p, api, ctx0, symStrings(prefix)}, "detail": f.Detail, "invocations": r.M, "returned": fmt.Sprint(r.Err), "invocation_times": fmt.Sprint(r.Times), "run": k + 1, "note": "a case whose last symbol ends the context is run up to 64 times: the retry loop's select between a zero wait and ctx.Done() is a random choice of the Go runtime"}}
+					v = &violRec{Sig: f.Sig, Key: fmt.Sprintf("%02d|%d|%v", len(prefix), p.RetryMax, caseA{p, api, ctx0, symStrings(prefix)}), Replay: map[string]any{"part": "A", "case": caseA{p, api, ctx0, symStrings(prefix)}, "detail": f.Detail, "invocations": r.M, "returned": fmt.Sprint(r.Err), "invocation_times": fmt.Sprint(r.Times), "note": "a case whose last symbol ends the context is run 64 times: the retry loop's select between a zero wait and ctx.Done() is a random choice of the Go runtime"}}
 					res.Viol[f.Sig] = v
 				}
 				v.Count++
@@ -374,6 +387,9 @@ func exploreA(t *testing.T, p polA, api, ctx0 string, res *partAResult) {
 			if len(r.Times) > 0 && r.Times[len(r.Times)-1] > res.MaxVirtual {
 				res.MaxVirtual = r.Times[len(r.Times)-1]
 			}
+		}
+		if len(outs) > 1 && len(seen) == 0 {
+			res.EngineErrors = append(res.EngineErrors, fmt.Sprintf("part A: executions of %v %s %s %v differ without a violation: %v", p, api, ctx0, symStrings(prefix), outs))
 		}
 		res.Cases++
 		c := first.Consumed
@@ -384,7 +400,12 @@ func exploreA(t *testing.T, p polA, api, ctx0 string, res *partAResult) {
 		if !p.Enabled && first.M > 1 {
 			res.DisabledRetry++
 		}
-		res.Outcomes[fmt.Sprintf("invocations=%d:result=%s", first.M, errKind(first.Err))]++
+		var ol []string
+		for o := range outs {
+			ol = append(ol, o)
+		}
+		sort.Strings(ol)
+		res.Outcomes[strings.Join(ol, " | ")]++
 		if len(res.Samples) < 4 && len(c) >= 3 && c[len(c)-1] != symR && p.Min > 0 {
 			res.Samples = append(res.Samples, map[string]any{"part": "A", "case": caseA{p, api, ctx0, symStrings(c)}, "invocations": first.M, "invocation_times": fmt.Sprint(first.Times), "returned": fmt.Sprint(first.Err)})
 		}
